@@ -184,6 +184,7 @@ pub enum Rel {
     First,
     Rest,
     Empty,
+    Distinct,
     Always,
     Never,
     Succeed,
